@@ -233,12 +233,25 @@ func init() {
 				if !ok {
 					continue
 				}
+				// count GoFloat64 reads in the body and in the package-local helpers it calls (two levels)
 				n := 0
-				for _, ce := range callsIn(body, true) {
-					if originOf(Callee(u.Pkg.TypesInfo, ce)) == gf {
-						n++
+				var count func(b ast.Node, info *types.Info, depth int)
+				seen := map[*types.Func]bool{}
+				count = func(b ast.Node, info *types.Info, depth int) {
+					for _, ce := range callsIn(b, true) {
+						fn := originOf(Callee(info, ce))
+						if fn == gf {
+							n++
+						}
+						if fn != nil && depth < 2 && !seen[fn] && fn.Pkg() != nil && rel(fn.Pkg().Path()) == schemaPkg {
+							if fd := c.declOf[fn]; fd != nil && fd.Body != nil {
+								seen[fn] = true
+								count(fd.Body, c.pkgOf[fd].TypesInfo, depth+1)
+							}
+						}
 					}
 				}
+				count(body, u.Pkg.TypesInfo, 0)
 				want := 2
 				if e.Name == "positive" || e.Name == "negative" {
 					want = 1
